@@ -8,7 +8,11 @@
            and neither run hangs.  Programs
            with a non-element-wise batch function (rev / droplast per chunk) are legitimately
            partition dependent: prop is not claimed for them (agree still is).
-   known : none (a program of the reorder class is mis-planned identically in both modes). *)
+   known : the reorder class (Canon.reorder_changes, shared with C02): a program of the class is
+           mis-planned identically in both modes, but with a type-changing map_values moved behind
+           its filter_values the sequential engine panics on its single (even empty) buffer while
+           the parallel engine over an EMPTY streamed source has no partition to apply the
+           operator to and returns [] - so par = seq is not claimed inside the class. *)
 From Coq Require Import List ZArith Bool String.
 From IB Require Import Util.J Engine.Val Engine.Lang Engine.Denote Engine.Decode Engine.Canon.
 Import ListNotations.
@@ -26,7 +30,7 @@ Definition check_C01 (kind : string) (input output : J) : verdict :=
               not_hang oseq && not_hang opar &&
               (partition_dependent (steps_size steps) steps
                || obs_agree (cmp_of steps) oseq opar) in
-            ok_verdict agree prop
+            V agree prop (reorder_changes s steps) false
         | _, _ => malformed
         end
     | _, _ => malformed
@@ -46,7 +50,8 @@ Definition check_C01 (kind : string) (input output : J) : verdict :=
             let '(a0, q0) := one pre s0 p0 in
             let '(a1, q1) := one (pre ++ b) sb pb in
             let '(a2, q2) := one (pre ++ a) sa pa in
-            ok_verdict (a0 && a1 && a2) (q0 && q1 && q2)
+            V (a0 && a1 && a2) (q0 && q1 && q2)
+              (reorder_changes s pre || reorder_changes s (pre ++ a) || reorder_changes s (pre ++ b)) false
         | _, _ => malformed
         end
     | _, _ => malformed
@@ -59,10 +64,11 @@ Definition check_C01 (kind : string) (input output : J) : verdict :=
         | Some oseq, Some opar =>
             if big_ok steps then
               let e := is_exact steps in
-              ok_verdict (big_agree MSeq s steps oseq && big_agree (MPar n) s steps opar)
-                         (not_hang oseq && not_hang opar &&
-                          (partition_dependent (steps_size steps) steps
-                           || obs_agree CExact (observed_summary e oseq) (observed_summary e opar)))
+              V (big_agree MSeq s steps oseq && big_agree (MPar n) s steps opar)
+                (not_hang oseq && not_hang opar &&
+                 (partition_dependent (steps_size steps) steps
+                  || obs_agree CExact (observed_summary e oseq) (observed_summary e opar)))
+                (reorder_changes s steps) false
             else malformed
         | _, _ => malformed
         end
